@@ -128,7 +128,7 @@ pub enum MapOp {
     Drop,
     Forget,
     WithCapacity(usize),
-    Serde(usize),
+    Serde(usize, #[allow(dead_code)] u8),
     /// deserialize from a deserializer that offers a boolean: the visitor's `expecting` text
     SerdeWrong,
 }
@@ -175,7 +175,7 @@ pub enum SetOp {
     Fmt(FmtKind),
     Drop,
     Forget,
-    Serde(usize),
+    Serde(usize, #[allow(dead_code)] u8),
     /// deserialize from a deserializer that offers a boolean: the visitor's `expecting` text
     SerdeWrong,
 }
@@ -400,7 +400,8 @@ fn map_op(a: &[&str]) -> Option<MapOp> {
         }
         ["clone", d] => MapOp::CloneTo(mreg(d)?),
         ["clone_from", d] => MapOp::CloneFrom(mreg(d)?),
-        ["serde", d] => MapOp::Serde(mreg(d)?),
+        ["serde", d] => MapOp::Serde(mreg(d)?, 0),
+        ["serde", d, f] => MapOp::Serde(mreg(d)?, 1 + f.strip_prefix("tok")?.parse::<u8>().ok()?),
         ["serde_wrong"] => MapOp::SerdeWrong,
         ["eq", o] => MapOp::Eq(mreg(o)?),
         ["from_iter", p, xs] => {
@@ -451,7 +452,8 @@ fn set_op(a: &[&str]) -> Option<SetOp> {
         ["iter", s] => SetOp::Iter(script(s)?),
         ["clone", d] => SetOp::CloneTo(sreg(d)?),
         ["clone_from", d] => SetOp::CloneFrom(sreg(d)?),
-        ["serde", d] => SetOp::Serde(sreg(d)?),
+        ["serde", d] => SetOp::Serde(sreg(d)?, 0),
+        ["serde", d, f] => SetOp::Serde(sreg(d)?, 1 + f.strip_prefix("tok")?.parse::<u8>().ok()?),
         ["serde_wrong"] => SetOp::SerdeWrong,
         ["eq", o] => SetOp::Eq(sreg(o)?),
         ["from_iter", p, xs] => {
